@@ -291,9 +291,9 @@ var c01RefPanics int64
 // c01OrderRuns: fresh executions of an L7 program.  Go starts the iteration
 // of a small map at a random slot, so an order-dependent program over a
 // 2-key object shows its second outcome with probability ≥ 1/8 per execution;
-// 400 identical executions of a program that does depend on the order have
-// probability ≤ (7/8)^400 < 1e-23.
-const c01OrderRuns = 400
+// 120 identical executions (quick tier) of a program that does depend on the
+// order have probability ≤ (7/8)^120 < 1.2e-7, 400 (thorough tier) < 1e-23.
+var c01OrderRuns = 120
 
 func c01SafeRef(c c01Case) (res c01RefResult) {
 	defer func() {
@@ -573,6 +573,9 @@ func TestVerif_C01(t *testing.T) {
 	}
 	for _, n := range names {
 		c01KnownBuiltins[n] = true
+	}
+	if p.Thorough {
+		c01OrderRuns = 400
 	}
 	if probe := os.Getenv("C01_PROBE"); probe != "" {
 		c01Probe(probe)
